@@ -122,6 +122,17 @@ func runC19(r *Result, thorough bool) {
 			}
 			c.Op(op, "O ["+joinComma(names)+"]")
 			c.Op("PS len", fmt.Sprintf("O %d %d %d", ps.Len(), ps.SuperMajority(), ps.TrustCount()))
+			// oracle: the thresholds of a *derived* set (built by additions and removals, possibly
+			// after the thresholds of its parent were read) are those of its own size
+			if n := len(ps.Peers); n >= 1 {
+				sm, tc := ps.SuperMajority(), ps.TrustCount()
+				if sm != specSuperMajority(n) {
+					r.Violate("impl-violation", fmt.Sprintf("after %v: SuperMajority()=%d for %d members, least integer > 2n/3 is %d", c.Ops, sm, n, specSuperMajority(n)), "supermajority-derived", c.Ops)
+				}
+				if !specMoreThanThird(n, tc+1) || (n >= 2 && tc < 1) || (n == 1 && tc != 0) || tc >= n {
+					r.Violate("impl-violation", fmt.Sprintf("after %v: TrustCount()=%d for %d members: %d signatures would be trusted", c.Ops, tc, n, tc+1), "trustcount-derived", c.Ops)
+				}
+			}
 			// oracle: distinct members, Len = number of members
 			if ps.Len() != len(ps.Peers) || len(ps.ByID) != len(ps.Peers) {
 				r.Violate("impl-violation", fmt.Sprintf("after %v: Len()=%d, %d peers, %d ids", c.Ops, ps.Len(), len(ps.Peers), len(ps.ByID)), "len-after-ops", c.Ops)
